@@ -5,8 +5,11 @@ import (
 	"context"
 	"errors"
 	"fmt"
+	"github.com/DataDog/datadog-traceroute/server"
 	"net"
+	"net/http/httptest"
 	"net/netip"
+	"net/url"
 	"os"
 	"sort"
 	"strings"
@@ -205,7 +208,7 @@ func checkC14() fw.Check {
 	return fw.Check{
 		Prop:  "C14",
 		Level: "exploration",
-		Rule: "built-in race detector (GORACE halt_on_error=0, log_path) over real goroutines on the real clock: (a) every parallel-capable variant (icmp4/6, udp4/6, sackR/S) on an UNSYNCHRONISED pre-seeded wire whose Sink and Source share no lock/atomic/channel, with replies for every TTL circulating continuously so each is read both before its probe is recorded (early/stale/spoofed) and after, and in every third repetition one send failing after a stall (the send's error path runs against the receive path); (b) K concurrent runs of mixed protocols over the ordinary simulated wire (allocators, echo ids, math/rand); (d) allocator bursts: 16 goroutines released at once draw IP-id blocks and echo ids, all blocks of one burst (< 65536 identifiers) must be disjoint (lost updates of a non-atomic read-modify-write are invisible to the race detector); (c) whole RunTraceroute requests with reverse-DNS fan-out, public-IP fetch and some participants failing at the same time; each workload repeated R times; reports are de-duplicated by the pair of first repository frames; a report without repository frames makes the run inconclusive (harness race). " +
+		Rule: "built-in race detector (GORACE halt_on_error=0, log_path) over real goroutines on the real clock: (a) every parallel-capable variant (icmp4/6, udp4/6, sackR/S) on an UNSYNCHRONISED pre-seeded wire whose Sink and Source share no lock/atomic/channel, with replies for every TTL circulating continuously so each is read both before its probe is recorded (early/stale/spoofed) and after, and in every third repetition one send failing after a stall (the send's error path runs against the receive path); (b) K concurrent runs of mixed protocols over the ordinary simulated wire (allocators, echo ids, math/rand); (d) allocator bursts: 16 goroutines released at once draw IP-id blocks and echo ids, all blocks of one burst (< 65536 identifiers) must be disjoint (lost updates of a non-atomic read-modify-write are invisible to the race detector); (c) whole RunTraceroute requests with reverse-DNS fan-out, public-IP fetch and some participants failing at the same time, and six requests served at once by one server.Server (one shared Traceroute value) through TracerouteHandler; each workload repeated R times; reports are de-duplicated by the pair of first repository frames; a report without repository frames makes the run inconclusive (harness race). " +
 			"distinct_nontrivial counts (variant, had-early-reads, had-late-reads) and workload signatures observed; a variant without both early and late reads is inconclusive",
 		Workers:       1,
 		MinNontrivial: 12,
@@ -252,6 +255,7 @@ func checkC14() fw.Check {
 				i := i
 				cases = append(cases, fw.Case{ID: fmt.Sprintf("C14/concurrent/%d", i), Run: func(c *fw.Ctx) { runC14Concurrent(c, i) }})
 				cases = append(cases, fw.Case{ID: fmt.Sprintf("C14/request/%d", i), Run: func(c *fw.Ctx) { runC14Request(c, i) }})
+				cases = append(cases, fw.Case{ID: fmt.Sprintf("C14/server/%d", i), Run: func(c *fw.Ctx) { runC14Server(c, i) }})
 			}
 			return cases
 		},
@@ -442,6 +446,64 @@ func runC14Request(c *fw.Ctx, i int) {
 	_, rerr := env.run(context.Background())
 	c.Count("requests", 1)
 	c.Nontrivial(fmt.Sprintf("request/%s/failing%v/err%v", proto, failing, rerr != nil))
+}
+
+// runC14Server: the HTTP front end keeps ONE Traceroute value for all requests; several requests are served at once
+// (different protocols and flags, same target), each fanning out runs, end-to-end probes and reverse-DNS lookups.
+func runC14Server(c *fw.Ctx, i int) {
+	resetProcessState()
+	v := refmatch.VariantByName("udp4")
+	target := drive.TargetFor(v, 221)
+	params := traceroute.TracerouteParams{Hostname: target.String(), Port: 33434, Protocol: "udp", MinTTL: 1, MaxTTL: 4}
+	env, err := newReqEnv(c, params, target, 33434, false)
+	if err != nil {
+		c.Inconclusive(err.Error())
+		return
+	}
+	defer env.close()
+	rs := installResolver(func(addr string) ([]string, error, time.Duration) {
+		return namesFor(addr), nil, time.Duration(len(addr)%3) * 100 * time.Microsecond
+	})
+	defer rs.restore()
+	env.modelFor = func(k int, e *simEnv) *pathModel {
+		m := flowPath(k, e, 3, true, 100*time.Microsecond)
+		m.destDelay = 250 * time.Microsecond
+		return m
+	}
+	srv := server.NewServer()
+	var wg sync.WaitGroup
+	codes := make([]int, 6)
+	allocMu.Lock()
+	for k := 0; k < 6; k++ {
+		k := k
+		wg.Add(1)
+		go func() {
+			defer wg.Done()
+			proto := []string{"udp", "icmp", "tcp"}[(k+i)%3]
+			to := "25"
+			if proto == "tcp" {
+				to = "6"
+			}
+			q := url.Values{"target": {target.String()}, "protocol": {proto}, "port": {"33434"}, "max-ttl": {"4"}, "timeout": {to}, "traceroute-queries": {"2"},
+				"e2e-queries": {"2"}, "reverse-dns": {fmt.Sprint(k%2 == 0)}, "skip-private-hops": {fmt.Sprint(k%3 == 0)}}
+			rec := httptest.NewRecorder()
+			srv.TracerouteHandler(rec, httptest.NewRequest("GET", "/traceroute?"+q.Encode(), nil))
+			codes[k] = rec.Code
+		}()
+	}
+	wg.Wait()
+	allocMu.Unlock()
+	ok := 0
+	for _, cd := range codes {
+		if cd == 200 {
+			ok++
+		}
+	}
+	c.Count("server_requests", len(codes))
+	c.Count("server_requests_ok", ok)
+	if ok > 0 {
+		c.Nontrivial("server-concurrent")
+	}
 }
 
 var _ = packets.FilterTypeICMP
